@@ -291,6 +291,22 @@ fn gen_valid_history(prop: &str, seed: u64, tier: Tier) -> Scenario {
         }
     }
     sc.signal = gen_signal(&mut rng);
+    // frame counts above 2^24 (f32 no longer exact): about 20 runs per quick batch, a few hundred per thorough one
+    let p_huge = std::env::var("RSIM_HUGE_P").ok().and_then(|s| s.parse::<f64>().ok()).unwrap_or(if tier == Tier::Quick { 1.7e-4 } else { 2.5e-4 });
+    if rng.chance(p_huge) {
+        sc.config = gen_huge_config(&mut rng);
+        sc.signal = Signal::Const { v: 0.25 };
+        let n = rng.usize_in(2, 4);
+        let mut m = OpMix::swarm(&mut rng, n);
+        m.w_partial = 0.0;
+        m.p_alt_path = 0.0;
+        m.p_slack = 0.0;
+        m.p_ragged = 0.0;
+        m.w_chunk = 0.0;
+        sc.ops = gen_ops_uniform(&mut rng, &sc.config, &m);
+        sc.profile = "huge-frame-counts".into();
+        return sc;
+    }
     let hi = if long { if tier == Tier::Quick { 1500 } else { 4000 } } else if tier == Tier::Quick { 60 } else { 200 };
     let budget = tier_budget(tier) * if long || big { 4.0 } else { 1.0 };
     let n = ops_budget(&sc.config, budget, 8, hi, &mut rng);
@@ -309,7 +325,66 @@ fn gen_valid_history(prop: &str, seed: u64, tier: Tier) -> Scenario {
     sc
 }
 
+/// Ultra-long cheap streams (tens of millions of frames) at a ratio a hair off a rational / off the oversampling
+/// grid, optionally after a sub-ppm ratio trim: slow drifts need that many frames to leave the fixed bound.
+fn gen_c07_ultra(seed: u64, tier: Tier) -> Scenario {
+    let (mut rng, mut sc) = base_scenario("C07", seed);
+    let kind = *rng.pick(&[Kind::FastIn, Kind::FastOut, Kind::SincIn, Kind::SincOut]);
+    let os = *rng.pick(&[1usize, 2, 3, 4, 8]);
+    let (num, den) = (rng.usize_in(1, 8), rng.usize_in(1, 8));
+    let e = 10f64.powf(-rng.uniform(6.0, 7.5)) * if rng.chance(0.5) { 1.0 } else { -1.0 };
+    // for sinc kinds: 1/ratio near a multiple of the grid step 1/os
+    let base = if kind.is_sinc() { os as f64 / rng.usize_in(1, 4 * os) as f64 } else { num as f64 / den as f64 };
+    let ratio = (base.clamp(0.125, 8.0)) * (1.0 + e);
+    sc.config = Config {
+        kind,
+        f32: rng.chance(0.3),
+        ratio,
+        rate_in: 1,
+        rate_out: 1,
+        max_rel: *rng.pick(&[1.0, 1.001, 1.1]),
+        chunk: *rng.pick(&[4096usize, 1024, 2048]),
+        sub_chunks: 1,
+        channels: 1,
+        sinc_len: 8,
+        oversampling: os,
+        interp: if rng.chance(0.5) { 0 } else { rng.below(4) as u8 },
+        window: 0,
+        f_cutoff: 0.95,
+        degree: rng.below(5) as u8,
+        kernel: if kind.is_sinc() { Kernel::Probe } else { Kernel::Auto },
+        cpu_mask: 0,
+        mask: None,
+        empty_inactive: false,
+    };
+    if sc.config.oversampling == 1 && sc.config.interp >= 2 {
+        sc.config.interp = 1;
+    }
+    sc.signal = Signal::Const { v: 0.5 };
+    let frames: f64 = if tier == Tier::Quick { 2.0e7 } else { 1.2e8 };
+    let per_call = match kind {
+        Kind::FastIn | Kind::SincIn => sc.config.chunk as f64,
+        _ => sc.config.chunk as f64 / ratio,
+    };
+    let n = (frames / per_call.max(1.0)) as usize;
+    let mut ops = Vec::with_capacity(n + 2);
+    if sc.config.max_rel > 1.0 && rng.chance(0.6) {
+        // a trim far below a percent, ramped or not
+        let d = 10f64.powf(-rng.uniform(6.0, 7.5)) * if rng.chance(0.5) { 1.0 } else { -1.0 };
+        ops.push(Op::SetRatio { rel: 1.0 + d, ramp: rng.chance(0.6), relative_api: rng.chance(0.5) });
+    }
+    for _ in 0..n {
+        ops.push(Op::process());
+    }
+    sc.ops = ops;
+    sc.profile = "ultra-long-near-resonant".into();
+    sc
+}
+
 fn gen_c07(seed: u64, tier: Tier) -> Scenario {
+    if Rng::new(seed ^ 0xC07).chance(if tier == Tier::Quick { 6.4e-4 } else { 2.7e-4 }) {
+        return gen_c07_ultra(seed, tier);
+    }
     let (mut rng, mut sc) = base_scenario("C07", seed);
     let mut dom = Dom::default();
     dom.ratio_changes = false;
@@ -421,13 +496,39 @@ fn eval_c07(sc: &Scenario) -> Outcome {
     let (blk_in, _blk_out) = fft_blocks(cfg);
     let mut worst = 0.0f64;
     let mut clean = true;
+    // after a ratio change the stream is again at a constant ratio once the (possibly ramped) next call is done:
+    // a new accounting segment starts there, with the bound doubled (both ends of the segment carry a filter state)
+    let mut r = r;
+    let mut bound = bound;
+    let mut settle = 0u32;
     for s in &t.steps {
         match (&sc.ops[s.op], &s.res) {
-            (Op::SetRatio { .. }, StepRes::CtlOk) => clean = false,
+            (Op::SetRatio { rel, relative_api, .. }, StepRes::CtlOk) => {
+                clean = false;
+                settle = 2;
+                let m = cfg.max_rel;
+                let v = if *relative_api { (cfg.ratio * *rel).max(cfg.ratio / m) } else { (cfg.ratio * *rel).clamp(cfg.ratio / m, cfg.ratio * m) };
+                r = v;
+                bound = 2.0 * (r * (l + 1.0 / r + 3.0) + 3.0) + 2.0;
+            }
             (Op::Reset, StepRes::Reset) => {
                 clean = true;
+                settle = 0;
                 tin = 0;
                 tout = 0;
+                r = cfg.nominal_ratio();
+                bound = r * (l + 1.0 / r + 3.0) + 3.0;
+            }
+            (Op::Process { .. }, StepRes::Proc { .. }) if !clean => {
+                if settle > 0 {
+                    settle -= 1;
+                }
+                if settle == 0 {
+                    clean = true;
+                    tin = 0;
+                    tout = 0;
+                    continue;
+                }
             }
             _ => {}
         }
